@@ -472,13 +472,21 @@ def progress_points(ctx, b):
         back = fl.backward(set(fl.op_nodes(rv['op'])))
         if ('m', 'FrameReader.cursor') not in back:
             continue
-        # an Add on the way
+        # an Add on the way (directly, through named locals `let start = cursor + N; cursor = start`, through the
+        # `.0` of a checked add)
         ol = rv['op']['place']['l'] if rv['op']['k'] in ('copy', 'move') else None
         if ol is None:
             continue
-        for (dp, kind, data) in b.defs.get(ol, []):
-            if kind == 'assign' and data['rv']['k'] == 'binop' and data['rv']['op'].startswith('Add'):
+        cands = {ol}
+        for o in b.trace_local(ol):
+            if o[0] == 'place' and len(o[2]['p']) == 1 and o[2]['p'][0]['k'] == 'field':
+                cands.add(o[2]['l'])
+            if o[0] == 'rv' and o[2]['k'] == 'binop' and o[2]['op'].startswith('Add'):
                 out.append(p)
+        for c_ in cands:
+            for (dp, kind, data) in b.defs.get(c_, []):
+                if kind == 'assign' and data['rv']['k'] == 'binop' and data['rv']['op'].startswith('Add'):
+                    out.append(p)
     return out
 
 
@@ -491,13 +499,21 @@ def fr5(ctx):
         if not b.path.startswith(FRD):
             continue
         prog = progress_points(ctx, b)
-        targets = [('corruption', p) for p in corruption_sites(b)]
+        # every return of Err(Corruption): asked at the point where the value is stored into the return slot (a value
+        # built early -- `ok_or(Corruption)` evaluates its argument first -- and returned after the quarantine is fine);
+        # constructions that never reach the return slot directly (handed to a callee, stored) are asked where built
+        ret_sites = sorted({e['ret_point'] for e in b.exits() if e['kind'] == 'err' and e.get('variant') == 'Corruption' and e.get('ret_point') is not None})
+        built = corruption_sites(b)
+        returned_built = {e['point'] for e in b.exits() if e['kind'] == 'err' and e.get('variant') == 'Corruption'}
+        targets = [('corruption', p) for p in ret_sites] + [('corruption', p) for p in built if not returned_built and p not in ret_sites]
+        if not ret_sites:
+            targets = [('corruption', p) for p in built]
         if any(cs.path.endswith('Header::check') for cs in b.calls):
             targets += [('ok-exit', e['point']) for e in b.exits() if e['kind'] == 'ok']
         seen = {}
         for (what, t) in targets:
             n += 1
-            ok = any(b.dominates(p, t) for p in prog)
+            ok = any(b.dominates(p, t) for p in prog) or (bool(prog) and t not in b.reach([b.entry], avoid=set(prog)))
             k = '%s:%s' % (b.path, what)
             seen[k] = seen.get(k, 0) + 1
             ctx.check(ok, '%s#%d' % (k, seen[k]), where(b, t), '%s dominated by a cursor advance or block quarantine' % what,
@@ -673,8 +689,10 @@ def fr8(ctx):
             n += 1
             seen += 1
             r = b.reach_after(p)
-            oks = [e for e in b.exits() if e['kind'] in ('ok', 'forward') and e['point'] in r]
-            errs = [e for e in b.exits() if e['point'] in r and e['kind'] == 'err']
+            # (asked where the value is stored into the return slot: a Corruption value built before the quarantine and
+            # returned after it is a report all the same)
+            oks = [e for e in b.exits() if e['kind'] in ('ok', 'forward') and e.get('ret_point', e['point']) in r]
+            errs = [e for e in b.exits() if e.get('ret_point', e['point']) in r and e['kind'] == 'err']
             all_corr = bool(errs) and all(e.get('variant') == 'Corruption' for e in errs)
             ctx.check(not oks and all_corr, '%s:quarantine-reported#%d' % (b.path, seen), where(b, p), 'block quarantine is followed only by Err(Corruption)',
                       'after quarantining a block the frame reader can still return successfully (%s): frames are skipped silently and a multi-frame entry open in the record reader gets spliced with unrelated frames' % (b.loc(oks[0]['point']) if oks else 'no Corruption exit'))
